@@ -331,6 +331,78 @@ package s3mem
 //@ ensures [C05]     nobucket: imp(!hasBucket(db, bucketName) && ret0 != nil, true)
 //@ ensures           lock:   db.lock == 0
 
+// ---- version iteration (C13) ----------------------------------------------------------------
+// A bucketObjectIterator walks the archived versions (ascending by id) and then the current one.
+//@ pred verVals(l) = allif(k, imp(sl_has(l)[k], typeis(sl_val(l)[k], *bucketData) && allocated(dyn(sl_val(l)[k], *bucketData))))
+//@ pred boiInv(b) = b != nil && imp(b.iter != nil, it_list(b.iter) != nil && verVals(it_list(b.iter)) && -1 <= it_idx(b.iter))
+
+//@ func (*bucketObject).Iterator
+//@ props C13 C09
+//@ requires          b:      b != nil && imp(b.versions != nil, verVals(b.versions))
+//@ ensures [C13]     init:   ret0 != nil && fresh(ret0) && ret0.data == b.data && !ret0.done && ret0.cur == nil && boiInv(ret0) &&
+//@                             imp(b.versions == nil, ret0.iter == nil) && imp(b.versions != nil, ret0.iter != nil && it_list(ret0.iter) == b.versions && it_idx(ret0.iter) == -1)
+//@ ensures           frame:  allif(x, imp(x != ret0.iter, it_list(x) == old(it_list(x)) && it_idx(x) == old(it_idx(x))))
+//@ ensures           new:    imp(ret0.iter != nil, fresh(ret0.iter))
+//@ modifies it_list, it_idx
+
+//@ func (*bucketObjectIterator).Seek
+//@ props C13 C09
+//@ requires          inv:    boiInv(b)
+//@ ensures           inv:    boiInv(b)
+//@ ensures [C13]     miss:   imp(!ret0, b.done)
+//@ modifies b.iter, b.data, b.done, it_idx(b.iter)
+
+//@ func (*bucketObjectIterator).Next
+//@ props C13 C09
+//@ requires          inv:    boiInv(b)
+//@ ensures           inv:    boiInv(b)
+//@ ensures [C13]     cur:    imp(ret0, b.cur != nil && allocated(b.cur))
+//@ ensures [C13]     last:   imp(ret0 && old(b.iter) == nil, b.cur == old(b.data) && b.data == nil)
+//@ ensures [C13]     end:    imp(!ret0, b.done)
+//@ modifies b.iter, b.data, b.done, b.cur, it_idx(b.iter)
+
+//@ func (*bucketObjectIterator).Value
+//@ props C13 C09
+//@ requires          b:      b != nil
+//@ ensures [C13]     def:    ret0 == b.cur
+//@ modifies nothing
+
+//@ func (*bucketObjectIterator).Close
+//@ props C13 C09
+//@ requires          inv:    boiInv(b)
+//@ modifies b.done
+
+//@ func (*Backend).ListBucketVersions
+//@ props C13 C09 C10
+//@ let NXV = ite(iter.didSeek, ite(iter.seekWasOK, it_idx(iter.inner), sl_len(bucket.objects)), it_idx(iter.inner) + 1)
+//@ requires          inv:    dbInvRO(db) && db.lock == 0
+//@ assume            page0:  emptyVersionsPage != nil && emptyVersionsPage.MaxKeys == 0 && emptyVersionsPage.KeyMarker == "" && emptyVersionsPage.VersionIDMarker == "" because emptyVersionsPage is initialised to &ListBucketVersionsPage{} and never written
+//@ loop 1 invariant  shape:  bucket != nil && bucket == bkt(db, bucketName) && result != nil && fresh(result) && iter != nil && iter.inner != nil && page != nil && prefix != nil
+//@ loop 1 invariant  pos:    allocated(iter.inner) && it_list(iter.inner) == bucket.objects && -1 <= it_idx(iter.inner) && 0 <= NXV && NXV <= sl_len(bucket.objects) &&
+//@                             imp(iter.didSeek && iter.seekWasOK, 0 <= it_idx(iter.inner) && it_idx(iter.inner) < sl_len(bucket.objects))
+//@ loop 1 invariant  lockd:  db.lock == 1 && !truncated
+//@ loop 1 invariant  objs:   bucketInvA(bucket)
+//@ loop 1 invariant  own:    result.prefixes == nil || fresh(result.prefixes)
+//@ loop 1 invariant  count:  0 <= cnt && cnt == len(result.Versions) && imp(page.MaxKeys > 0, cnt < page.MaxKeys)
+//@ loop 1 invariant  mark:   result.NextKeyMarker == "" && result.NextVersionIDMarker == ""
+//@ loop 1 invariant  same:   unchanged(db) && db.buckets == old(db.buckets)
+//@ loop 2 invariant  shape:  bucket != nil && bucket == bkt(db, bucketName) && result != nil && fresh(result) && iter != nil && iter.inner != nil && page != nil && prefix != nil
+//@ loop 2 invariant  pos:    allocated(iter.inner) && it_list(iter.inner) == bucket.objects && 0 <= it_idx(iter.inner) && it_idx(iter.inner) < sl_len(bucket.objects) && !iter.didSeek
+//@ loop 2 invariant  lockd:  db.lock == 1 && !truncated
+//@ loop 2 invariant  vers:   object != nil && allocated(object) && versions != nil && fresh(versions) && boiInv(versions) && imp(versions.data != nil, allocated(versions.data)) && imp(versions.iter != nil, versions.iter != iter.inner)
+//@ loop 2 invariant  objs:   bucketInvA(bucket)
+//@ loop 2 invariant  own:    result.prefixes == nil || fresh(result.prefixes)
+//@ loop 2 invariant  count:  0 <= cnt && cnt == len(result.Versions) && imp(page.MaxKeys > 0, cnt < page.MaxKeys)
+//@ loop 2 invariant  mark:   result.NextKeyMarker == "" && result.NextVersionIDMarker == ""
+//@ loop 2 invariant  same:   unchanged(db) && db.buckets == old(db.buckets)
+//@ uses same: inv.shape inv.own inv.vers inv.lockd -hints
+//@ uses objs: inv.shape inv.vers -hints
+//@ ensures [C13]     nobucket: imp(!hasBucket(db, bucketName), errcode(ret1) == gofakes3.ErrNoSuchBucket)
+//@ ensures [C13]     limit:  imp(ret1 == nil && page != nil && page.MaxKeys > 0, len(ret0.Versions) <= page.MaxKeys)
+//@ ensures [C13]     markers: imp(ret1 == nil && ret0.IsTruncated, ret0.NextKeyMarker != "")
+//@ ensures [C10]     same:   unchanged()
+//@ ensures           lock:   db.lock == 0
+
 // ---- listing (C03, C04) -----------------------------------------------------------------
 // Indices 0..N-1 run over the bucket's keys in ascending order (sl_key of the index).
 //   ks(i)  the i-th key, ob(i) its object
